@@ -706,6 +706,71 @@ def reply_then_close(rng, i):
     return {"kind": "connclose-slowcaller", "cfg": {}, "steps": steps}
 
 
+def undrained(rng, i):
+    """A consumer that is not being read while the server keeps delivering to it (thousands of
+    messages queue up): another consumer's deliveries, a get and ordinary replies sent BEHIND that
+    backlog arrive promptly; the lazy consumer later finds everything, in order."""
+    n_back = [1500, 2600, 4200][i % 3]
+    steps, ids = opens(3, rng.sample(range(1, 30), 3))
+    steps.append({"do": "consume", "h": "A", "as": "lazy"})
+    steps.append({"do": "consume", "h": "B", "as": "busy"})
+    mid = 100000 * (i % 20 + 1)
+    k = 0
+    while k < n_back:
+        burst = min(n_back - k, rng.choice([50, 200, 500]))
+        frames = []
+        for _ in range(burst):
+            mid += 1
+            ln = rng.choice([0, 0, 0, 3])
+            frames.append(deliver(ids["A"], "lazy", mid, ln, [ln] if ln else []))
+        steps.append(srv(*frames))
+        k += burst
+        if rng.random() < 0.3:
+            mid += 1
+            steps.append(srv(deliver(ids["B"], "busy", mid, 4, [1, 3])))
+            steps.append(op("C", rng.choice(["qos", "declare"])))
+    mid += 1
+    steps.append(srv(deliver(ids["B"], "busy", mid, 5, [5])))
+    steps.append({"do": "sync"})
+    steps.append(op("C", "declare"))
+    steps.append(op("A", "qos"))
+    steps.append({"do": "closeconn"})
+    steps.append({"do": "drain", "c": "busy"})
+    steps.append({"do": "drain", "c": "lazy"})
+    return {"kind": "content-undrained", "cfg": {}, "steps": steps}
+
+
+def midframe_close(rng, i):
+    """The transport stops accepting bytes in the MIDDLE of a frame (after k bytes of a multi-frame
+    publish); while it is stalled the server closes the connection (or a channel, or nothing special
+    happens); then it accepts again.  The byte stream must still consist of whole frames in order:
+    the rest of the half-written frame, everything queued before the close, CloseOk."""
+    fm = rng.choice([4096, 131072])
+    steps, ids = opens(2, [1, 2])
+    steps.append(op("A", "qos"))
+    k = rng.choice([1, 5, 7, 8, 9, 20, 33, 34, 40, 56, 57, 58, 60, 100, 1000, 4150, 4160, 4200])
+    steps.append({"do": "budget", "n": k})
+    steps.append(op("A", "publish", len=rng.choice([5000, 9000, 300] if k <= 100 else [5000, 9000]), pid=70 * i + 1))
+    if rng.random() < 0.5:
+        steps.append(op("B", "declare_nowait", q="behind"))
+    steps.append({"do": "budget_used"})
+    what = rng.choice(["connclose", "connclose", "chclose", "none"])
+    if what == "connclose":
+        steps.append(srv({"k": "connclose", "code": 320, "text": "CONNECTION_FORCED - x"}))
+    elif what == "chclose":
+        steps.append(srv({"k": "chclose", "ch": ids["B"], "code": 404, "text": "NOT_FOUND"}))
+    steps.append({"do": "sync"})
+    if rng.random() < 0.5:
+        steps.append({"do": "budget", "n": rng.choice([1, 3, 11])})   # a few more bytes, stalled again
+        steps.append({"do": "budget_used"})
+    steps.append({"do": "budget", "n": None})
+    steps.append({"do": "sync"})
+    steps.append(op("A", "qos"))
+    steps.append(op("B", "qos"))
+    steps.append({"do": "closeconn"})
+    return {"kind": "backlog-midframe", "cfg": {"tune": [0, fm, 0]}, "steps": steps}
+
+
 def backlog(rng, i):
     """More than a megabyte queued behind a stalled transport, then drained by short writes that
     never block again (large accepts, but smaller than the backlog)."""
@@ -1044,7 +1109,7 @@ def batches(rng, maxlen, bases, reps=1):
     return res
 
 
-FAMILIES = {"connclose_cross": connclose_cross, "reply_then_close": reply_then_close, "chclose_cross": chclose_cross, "listener_split": listener_split, "mixed": mixed, "pubflags": pubflags, "backlog": backlog, "hb_silence": hb_silence, "listener_cross": listener_cross, "close_slow": close_slow, "consumer_drop": consumer_drop, "rpc": rpc, "content": content, "consumer": consumer, "listeners": listeners,
+FAMILIES = {"midframe_close": midframe_close, "undrained": undrained, "connclose_cross": connclose_cross, "reply_then_close": reply_then_close, "chclose_cross": chclose_cross, "listener_split": listener_split, "mixed": mixed, "pubflags": pubflags, "backlog": backlog, "hb_silence": hb_silence, "listener_cross": listener_cross, "close_slow": close_slow, "consumer_drop": consumer_drop, "rpc": rpc, "content": content, "consumer": consumer, "listeners": listeners,
             "connclose": connclose, "chanclose": chanclose}
 
 
